@@ -125,3 +125,127 @@ M("line1-start-line-none", "C08", LL, "                varname=store_to,\n      
 M("fall1-overwrites", "C08", LL, "        if info.obj is not None and info.varname is None:", "        if info.obj is not None:", "FALL-1")
 M("fall1-by-eq", "C08", LL, "ret[idx] = replace(info, varname=locals_by_id.get(id(info.obj)))", "ret[idx] = replace(info, varname=locals_by_id.get(info.obj))", "FALL-1")
 M("c08-opc3-async-base", "C08", LL, "skip_insns = 7 if is_async else 1", "skip_insns = 8 if is_async else 1", "OPC-3")
+
+EX = "_extract.py"
+CU = "_customization.py"
+GL = "_glue.py"
+# ---------------------------------------------------------------- C05
+M("cont1-unwrap-narrow", "C05", EX, "            except Exception as ex:\n                unwrapped = None\n                save_errors.append(ex)", "            except RuntimeError as ex:\n                unwrapped = None\n                save_errors.append(ex)", "CONT-1")
+M("cont1-next-narrow", "C05", EX, "                    except Exception as ex:\n                        save_errors.append(ex)\n                        break", "                    except ValueError as ex:\n                        save_errors.append(ex)\n                        break", "CONT-1")
+M("cont1-contexts-narrow", "C05", EX, "            except Exception as ex:  # pragma: no cover\n                save_errors.append(ex)", "            except RuntimeError as ex:  # pragma: no cover\n                save_errors.append(ex)", "CONT-1")
+M("cont1-fill-narrow", "C05", EX, "                    except Exception as ex:\n                        save_errors.append(ex)\n\n", "                    except RuntimeError as ex:\n                        save_errors.append(ex)\n\n", "CONT-1")
+M("cont1-elaborate-narrow", "C05", EX, "        except Exception as ex:\n            save_errors.append(ex)\n            frame.hide = False", "        except RuntimeError as ex:\n            save_errors.append(ex)\n            frame.hide = False", "CONT-1")
+M("cont1-elaborate-unguarded", "C05", EX, "        try:\n            replacement = elaborate_frame(frame, next_inner)\n        except Exception as ex:\n            save_errors.append(ex)\n            frame.hide = False\n            replacement = PRUNE\n",
+  "        replacement = elaborate_frame(frame, next_inner)\n", "CONT-1")
+M("cont1-handler-reraises", "C05", EX, "                    except Exception as ex:\n                        save_errors.append(ex)\n\n", "                    except Exception as ex:\n                        save_errors.append(ex)\n                        raise\n\n", "CONT-1")
+M("cont1-handler-breaks-main", "C05", EX, "            except Exception as ex:  # pragma: no cover\n                save_errors.append(ex)\n", "            except Exception as ex:  # pragma: no cover\n                save_errors.append(ex)\n                break\n", "CONT-1")
+M("cont2-append-deleted", "C05", EX, "            except Exception as ex:\n                unwrapped = None\n                save_errors.append(ex)", "            except Exception as ex:\n                unwrapped = None", "CONT-2")
+M("cont2-elab-append-deleted", "C05", EX, "        except Exception as ex:\n            save_errors.append(ex)\n            frame.hide = False", "        except Exception as ex:\n            frame.hide = False", "CONT-2")
+M("f6-reverted", "C05", EX, "            if to_unwrap:\n                to_unwrap.popleft()", "            to_unwrap.popleft()", "CONT-3")
+M("cont3-leaf-guard-deleted", "C05", EX, "        if not to_elaborate:\n            break\n", "", "CONT-3")
+M("cont3-next-inner-unguarded", "C05", EX, "next_inner = to_elaborate[0][0] if to_elaborate else None", "next_inner = to_elaborate[0][0]", "CONT-3")
+M("cont3-items-unguarded", "C05", EX, "if not items or items[-1] is not next_inner:", "if items[-1] is not next_inner:", ["CONT-3"])
+M("cont3-errors-unguarded", "C05", EX, "error = errors[0] if errors else None", "error = errors[0]", ["CONT-3", "CONT-5"])
+M("cont4-hide-deleted", "C05", EX, "            save_errors.append(ex)\n            frame.hide = False\n", "            save_errors.append(ex)\n", "CONT-4")
+M("cont4-prune-deleted", "C05", EX, "            frame.hide = False\n            replacement = PRUNE\n", "            frame.hide = False\n", ["CONT-4", "DEF-1"])
+M("cont4-continue-before-yield", "C05", EX, "            frame.hide = False\n            replacement = PRUNE\n", "            frame.hide = False\n            replacement = PRUNE\n            continue\n", "CONT-4")
+M("cont5-group-threshold", "C05", EX, "            if len(errors) > 1:\n                error = ExceptionGroup(", "            if len(errors) > 2:\n                error = ExceptionGroup(", "CONT-5")
+M("cont5-error-dropped", "C05", EX, "                leaf=ex.value,\n                error=error,\n", "                leaf=ex.value,\n", "CONT-5")
+M("def1-module-fn-none", "C05", GL, "    except Exception:  # module disappeared, doesn't have a dict, etc\n        module_fn = None\n", "    except Exception:  # module disappeared, doesn't have a dict, etc\n        pass\n", "DEF-1")
+M("def1-unwrapped-none", "C05", EX, "            except Exception as ex:\n                unwrapped = None\n                save_errors.append(ex)", "            except Exception as ex:\n                save_errors.append(ex)", "DEF-1")
+T("twin-cont-tuple-exception", "C05", EX, "            except Exception as ex:\n                unwrapped = None\n                save_errors.append(ex)", "            except (Exception,) as ex:\n                unwrapped = None\n                save_errors.append(ex)")
+T("twin-cont-baseexception", "C05", EX, "        except Exception as ex:\n            save_errors.append(ex)\n            frame.hide = False", "        except (RuntimeError, Exception) as ex:\n            save_errors.append(ex)\n            frame.hide = False")
+T("twin-cont3-len-guard", "C05", EX, "            if to_unwrap:\n                to_unwrap.popleft()", "            if len(to_unwrap) > 0:\n                to_unwrap.popleft()")
+T("twin-cont-rename", "C05", EX, "                    except Exception as ex:\n                        save_errors.append(ex)\n\n", "                    except Exception as exc2:\n                        save_errors.append(exc2)\n\n")
+
+# ---------------------------------------------------------------- C10
+M("eng1-inc-deleted", "C10", EX, "                loops_since_progress += 1\n", "", "ENG-1")
+M("eng1-raise-outside-try", "C10", EX, '''                loops_since_progress += 1
+                if loops_since_progress > 100:
+                    raise RuntimeError(
+                        f"{current!r} has been unwrapped more than 100 times "
+                        f"without reaching something irreducible; probably an "
+                        f"infinite loop? (next result is {unwrapped!r})"
+                    )
+            except Exception as ex:
+                unwrapped = None
+                save_errors.append(ex)
+''', '''                loops_since_progress += 1
+            except Exception as ex:
+                unwrapped = None
+                save_errors.append(ex)
+            if loops_since_progress > 100:
+                raise RuntimeError("probably an infinite loop")
+''', ["ENG-1"])
+M("eng1-bound-1000", "C10", EX, "if loops_since_progress > 100:", "if loops_since_progress > 100000:", "ENG-1")
+M("eng1-reset-frame-deleted", "C10", EX, "            if isinstance(current, Frame):\n                loops_since_progress = 0\n", "            if isinstance(current, Frame):\n", "ENG-1")
+M("eng1-outer-reset-deleted", "C10", EX, "        loops_since_progress = 0\n        while to_unwrap and (", "        while to_unwrap and (", ["ENG-1", "DEF-1"], accept_analysis_error=True)
+M("eng2-none-continue", "C10", EX, "        if replacement is None:\n            continue\n", "        if replacement is None:\n            replacement = ()\n", "ENG-2")
+M("eng2-prune-gt", "C10", EX, "while to_unwrap and to_unwrap[0][2] >= depth:", "while to_unwrap and to_unwrap[0][2] > depth:", "ENG-2")
+M("eng2-cond-and", "C10", EX, "if not items or items[-1] is not next_inner:", "if not items and items[-1] is not next_inner:", ["ENG-2", "CONT-3"])
+M("eng2-cond-first", "C10", EX, "if not items or items[-1] is not next_inner:", "if not items or items[0] is not next_inner:", "ENG-2", accept_analysis_error=True)
+M("eng2-insert-no-pop", "C10", EX, "            if to_unwrap:\n                to_unwrap.popleft()\n", "            pass\n", "ENG-2")
+M("eng2-requeue-popleft", "C10", EX, "to_unwrap.appendleft((None, *to_elaborate.pop()))", "to_unwrap.appendleft((None, *to_elaborate.popleft()))", ["ENG-2", "CONT-3"])
+M("eng2-push-forward", "C10", EX, "        for item in reversed(items):\n            to_unwrap.appendleft((better_origin(item, None), item, depth))", "        for item in items:\n            to_unwrap.appendleft((better_origin(item, None), item, depth))", "ENG-2")
+M("eng2-push-depth", "C10", EX, "to_unwrap.appendleft((better_origin(item, None), item, depth))", "to_unwrap.appendleft((better_origin(item, None), item, depth + 1))", "ENG-2")
+M("yf1-no-wrap", "C10", CU, "        return FrameIterator(fn(*args, **kwargs))", "        return fn(*args, **kwargs)", "YF-1")
+M("yf1-prune-none", "C10", CU, "PRUNE = ()", "PRUNE = (None,)", "YF-1")
+M("yf1-iter-any", "C10", EX, "            if isinstance(unwrapped, FrameIterator):", "            if hasattr(unwrapped, '__next__'):", "YF-1")
+T("twin-eng2-demorgan", "C10", EX, "if not items or items[-1] is not next_inner:", "if not (items and items[-1] is next_inner):")
+
+# ---------------------------------------------------------------- C11
+M("ctx1-order", "C11", EX, "        elaborate_context(context.obj, context)\n        inner_mgr = unwrap_context(context.obj, context)", "        inner_mgr = unwrap_context(context.obj, context)\n        elaborate_context(context.obj, context)", "CTX-1")
+M("ctx2-children-deleted", "C11", EX, "        context.inner_stack = None\n        context.children = ()\n", "        context.inner_stack = None\n", "CTX-2")
+M("ctx2-inner-stack-deleted", "C11", EX, "        context.inner_stack = None\n        context.children = ()\n", "        context.children = ()\n", "CTX-2")
+M("ctx3-prune-break-deleted", "C11", EX, "            context.hide = True\n            break\n", "            context.hide = True\n", "CTX-3")
+M("ctx3-prune-hide-deleted", "C11", EX, "        if inner_mgr == PRUNE:\n            context.hide = True\n            break", "        if inner_mgr == PRUNE:\n            break", "CTX-3")
+M("ctx3-bound", "C11", EX, "    for _ in range(100):\n        if TYPE_CHECKING:", "    for _ in range(1000000):\n        if TYPE_CHECKING:", "CTX-3")
+M("ctx3-else-no-raise", "C11", EX, '''        inner_mgr = unwrap_context(context.obj, context)  # type: ignore
+        raise RuntimeError(
+            f"{context.obj!r} has been unwrapped more than 100 times "
+            f"without reaching something irreducible; probably an "
+            f"infinite loop? (next result is {inner_mgr!r})"
+        )''', "        pass", "CTX-3")
+M("ctx4-defaults-flipped", "C11", EX, "with current_options.push(with_contexts=True, recurse_child_tasks=False):\n            fill_context(context)", "with current_options.push(with_contexts=True, recurse_child_tasks=True):\n            fill_context(context)", "CTX-4")
+M("ctx4-no-return", "C11", EX, "            fill_context(context)\n        return\n", "            fill_context(context)\n", "CTX-4")
+M("ctx5-last-frame", "C11", GL, "                        context.inner_stack.frames[0], context", "                        context.inner_stack.frames[-1], context", "CTX-5")
+M("ctx5-no-registry-test", "C11", GL, "        if mgr_code in unwrap_context_generator.registry:", "        if mgr_code is not None:", "CTX-5")
+M("ctx5-unwrap-reg-dropped", "C11", GL, "    @unwrap_context.register(GCMBase)\n    def unwrap_generatorbased_contextmanager", "    def unwrap_generatorbased_contextmanager", "CTX-5")
+
+# ---------------------------------------------------------------- C13
+M("opt1-plain-class", "C13", EX, "class ExtractOptions(threading.local):", "class ExtractOptions:", "OPT-1")
+M("opt2-no-finally", "C13", EX, "        try:\n            yield\n        finally:\n            (self.with_contexts, self.recurse_child_tasks) = prev", "        yield\n        (self.with_contexts, self.recurse_child_tasks) = prev", "OPT-2")
+M("opt2-restore-swapped", "C13", EX, "            (self.with_contexts, self.recurse_child_tasks) = prev", "            (self.recurse_child_tasks, self.with_contexts) = prev", "OPT-2")
+M("opt2-save-after-write", "C13", EX, "        prev = (self.with_contexts, self.recurse_child_tasks)\n        self.with_contexts = with_contexts\n", "        self.with_contexts = with_contexts\n        prev = (self.with_contexts, self.recurse_child_tasks)\n", "OPT-2")
+M("opt2-write-swapped", "C13", EX, "        self.recurse_child_tasks = recurse_child_tasks\n        try:", "        self.recurse_child_tasks = with_contexts\n        try:", "OPT-2")
+M("opt3-extra-writer", "C13", EX, "    if for_task and not current_options.recurse_child_tasks:\n        return Stack(root=stackitem, frames=[])", "    if for_task and not current_options.recurse_child_tasks:\n        current_options.with_contexts = False\n        return Stack(root=stackitem, frames=[])", "OPT-3")
+M("opt4-extract-const", "C13", EX, "    with current_options.push(\n        with_contexts=with_contexts, recurse_child_tasks=recurse_child_tasks\n    ):\n        return extract_child(stackitem, for_task=False)", "    with current_options.push(\n        with_contexts=with_contexts, recurse_child_tasks=False\n    ):\n        return extract_child(stackitem, for_task=False)", "OPT-4")
+M("opt4-since-drops", "C13", EX, "        StackSlice(outer=outer_frame),\n        with_contexts=with_contexts,\n        recurse_child_tasks=recurse_child_tasks,", "        StackSlice(outer=outer_frame),\n        with_contexts=with_contexts,", "OPT-4")
+M("opt4-until-swapped", "C13", EX, 'opts = {"with_contexts": with_contexts, "recurse_child_tasks": recurse_child_tasks}', 'opts = {"with_contexts": recurse_child_tasks, "recurse_child_tasks": with_contexts}', "OPT-4")
+M("opt4-default-flip", "C13", EX, "def extract_outermost(\n    stackitem: StackItem,\n    *,\n    with_contexts: bool = True,", "def extract_outermost(\n    stackitem: StackItem,\n    *,\n    with_contexts: bool = False,", "OPT-4")
+M("opt5-guard-deleted", "C13", EX, '''    if current_options.recurse_child_tasks is None:
+        raise RuntimeError(
+            "extract_child() may only be called from within a customization "
+            "hook invoked by extract()"
+        )
+''', "", ["OPT-5", "OPT-6"])
+M("opt6-stub-or", "C13", EX, "    if for_task and not current_options.recurse_child_tasks:", "    if for_task or not current_options.recurse_child_tasks:", "OPT-6")
+M("opt6-stub-no-root", "C13", EX, "        return Stack(root=stackitem, frames=[])", "        return Stack(root=None, frames=[])", "OPT-6")
+M("opt7-unconditional", "C13", EX, "        if current_options.with_contexts:\n            next_pyframe", "        if True:\n            next_pyframe", "OPT-7")
+T("twin-opt6-demorgan", "C13", EX, "    if for_task and not current_options.recurse_child_tasks:", "    if not (not for_task or current_options.recurse_child_tasks):")
+
+# ---------------------------------------------------------------- C16
+M("ori1-not-first", "C16", EX, "            return next(extract_iter(stackitem, errors))", "            it = extract_iter(stackitem, errors)\n            next(it)\n            return next(it)", "ORI-1")
+M("ori2-return-none", "C16", EX, "            if errors:\n                raise errors[0]\n            else:", "            if errors:\n                return None  # type: ignore\n            else:", "ORI-2")
+M("ori2-generic-error", "C16", EX, "            if errors:\n                raise errors[0]\n            else:", "            if False:\n                raise errors[0]\n            else:", "ORI-2", accept_analysis_error=True)
+M("ori3-filter-deleted", "C16", EX, '''                if not isinstance(
+                    origin,
+                    (
+                        types.CoroutineType,
+                        types.GeneratorType,
+                        types.AsyncGeneratorType,
+                    ),
+                ):
+                    origin = None
+''', "", "ORI-3")
+M("ori3-better-origin-no-fallback", "C16", EX, "    except TypeError:\n        return fallback", "    except TypeError:\n        return candidate", "ORI-3")
